@@ -14,16 +14,6 @@ REPO = "/repo"
 
 # function name (regex) -> properties whose checks exercise it
 FUNC_PROPS = [
-    (r"add_interaction$|__add_event|__drop_event|add_interactions_from|add_path|add_star|add_cycle", ["C01", "C03", "C04", "C05", "C07", "C08"]),
-    (r"__presence_test|has_interaction", ["C01", "C02", "C08"]),
-    (r"interactions_iter|interactions$|in_interactions|out_interactions|neighbors|successors|predecessors|degree|size|order|"
-     r"number_of_nodes|number_of_interactions|has_node|nodes|get_node_snapshots|all_neighbors|non_neighbors|non_interactions|"
-     r"density$|degree_histogram|is_empty|has_successor|has_predecessor", ["C02", "C08"]),
-    (r"temporal_snapshots_ids|interactions_per_snapshots|avg_number_of_nodes", ["C04", "C08"]),
-    (r"stream_interactions", ["C05", "C08", "C10"]),
-    (r"time_slice", ["C06", "C20"]),
-    (r"to_directed|to_undirected", ["C16"]),
-    (r"coverage|contribution|uniformity|pair_density|node_density|snapshot_density|node_presence|inter_.*event_time", ["C17"]),
     (r"generate_snapshots|write_snapshots|read_snapshots|parse_snapshots", ["C09", "C18"]),
     (r"generate_interactions|write_interactions|read_interactions|parse_interactions", ["C10", "C18"]),
     (r"read_ids|compact_timeslot|_decoded_lines", ["C18", "C09", "C10"]),
@@ -32,7 +22,17 @@ FUNC_PROPS = [
     (r"time_respecting_paths", ["C12", "C13", "C20"]),
     (r"annotate_paths|path_length|path_duration", ["C14", "C20"]),
     (r"conformity|__label_frequency|__normalize|__remap|__distance", ["C20"]),
+    (r"to_directed|to_undirected", ["C16"]),
+    (r"coverage|contribution|uniformity|pair_density|node_density|snapshot_density|node_presence|inter_.*event_time", ["C17"]),
+    (r"time_slice", ["C06", "C20"]),
     (r"freeze|frozen|not_implemented|clear|update_node_attr|add_node|open_file|_open", ["C19", "C09"]),
+    (r"stream_interactions", ["C05", "C08", "C10"]),
+    (r"temporal_snapshots_ids|interactions_per_snapshots|avg_number_of_nodes", ["C04", "C08"]),
+    (r"add_interaction$|__add_event|__drop_event|add_interactions_from|add_path|add_star|add_cycle", ["C01", "C03", "C04", "C05", "C07", "C08"]),
+    (r"__presence_test|has_interaction", ["C01", "C02", "C08"]),
+    (r"interactions_iter|interactions$|in_interactions|out_interactions|neighbors|successors|predecessors|degree|size|order|"
+     r"number_of_nodes|number_of_interactions|has_node|nodes|get_node_snapshots|all_neighbors|non_neighbors|non_interactions|"
+     r"density$|degree_histogram|is_empty|has_successor|has_predecessor", ["C02", "C08"]),
 ]
 FILE_DEFAULT = {"dynetx/utils/decorators.py": ["C19", "C09", "C10"], "dynetx/classes/function.py": ["C02", "C19"],
                 "dynetx/utils/transform.py": ["C18"], "dynetx/utils/misc.py": ["C09", "C10", "C11"]}
